@@ -588,6 +588,70 @@ pub fn f5() -> Fragment {
                 get(content(obj(vec![prop("a", app("ap", vec![var("box")])), prop("b", app("ap", vec![var("box")]))]))),
             ]));
         }
+        // three and four parameters of kinds that cannot stand in for each other, so that every
+        // argument has to reach its own parameter
+        {
+            let o = obj(vec![prop("q", num())]);
+            let h = obj(vec![prop("h", str_())]);
+            let mk3 = fun(
+                "mk",
+                &["s", "h", "b"],
+                E::Content(vec![(Meta::Status, var("s")), (Meta::Headers, var("h"))], Some(Box::new(var("b")))),
+            );
+            let use3 = app("mk", vec![status(201), h.clone(), o.clone()]);
+            extra.push(single(vec![mk3.clone(), get(use3.clone())]));
+            extra.push(single(vec![get(use3), mk3]));
+            let mk4 = fun(
+                "mk",
+                &["s", "m", "h", "b"],
+                E::Content(
+                    vec![(Meta::Status, var("s")), (Meta::Media, var("m")), (Meta::Headers, var("h"))],
+                    Some(Box::new(var("b"))),
+                ),
+            );
+            let use4 = app("mk", vec![status(201), text("text/plain"), h.clone(), o.clone()]);
+            extra.push(single(vec![mk4.clone(), get(use4.clone())]));
+            extra.push(single(vec![get(use4), mk4]));
+            let mk3s = fun("mk", &["a", "b", "c"], obj(vec![prop("a", var("a")), prop("b", var("b")), prop("c", var("c"))]));
+            extra.push(single(vec![mk3s, get(content(app("mk", vec![num(), str_(), E::Prim(Prim::Bool)])))]));
+        }
+        // a function whose parameter is applied, called with two different functions (in two
+        // resources and in one)
+        {
+            let w = fun("w", &["x"], obj(vec![prop("w", var("x"))]));
+            let b = fun("b", &["x"], obj(vec![prop("b", var("x"))]));
+            let apply = fun("apply", &["g", "v"], app("g", vec![var("v")]));
+            extra.push(single(vec![
+                w.clone(),
+                b.clone(),
+                apply.clone(),
+                get(content(app("apply", vec![var("w"), num()]))),
+                get_at("second", content(app("apply", vec![var("b"), num()]))),
+            ]));
+            extra.push(single(vec![
+                w,
+                b,
+                apply,
+                get(content(obj(vec![
+                    prop("m", app("apply", vec![var("w"), num()])),
+                    prop("n", app("apply", vec![var("b"), num()])),
+                ]))),
+            ]));
+        }
+        // a parameter name written twice that is also the name of a declaration used elsewhere
+        {
+            let pick = fun("pick", &["x", "x"], var("x"));
+            let g = let_("x", E::Prim(Prim::Bool));
+            let use_ = get(content(obj(vec![prop("a", app("pick", vec![num(), num()])), prop("b", var("x"))])));
+            extra.push(single(vec![g.clone(), pick.clone(), use_.clone()]));
+            extra.push(single(vec![pick.clone(), use_.clone(), g.clone()]));
+            extra.push(single(vec![
+                g,
+                pick,
+                get(content(app("pick", vec![num(), num()]))),
+                get_at("second", content(var("x"))),
+            ]));
+        }
         // the built-in function, used directly and through declarations
         extra.push(single(vec![
             let_("base", uri_lit(&["api"])),
@@ -889,6 +953,29 @@ pub fn f6_rec_programs() -> Vec<Program> {
             .map(|(i, a)| prop(&format!("k{i}"), app("tree", vec![a.clone()])))
             .collect();
         programs.push(single(vec![tree.clone(), get(content(obj(props)))]));
+    }
+    // a rec whose body uses the parameter, around an inner rec that mentions the outer binder
+    // but not the parameter: the inner one belongs to its outer instantiation
+    {
+        let inner = E::Rec("cell".into(), Box::new(obj(vec![prop("up", var("top")), prop("next", arr(var("cell")))])));
+        let chain = fun(
+            "chain",
+            &["v"],
+            E::Rec("top".into(), Box::new(obj(vec![prop("value", var("v")), prop("tail", inner)]))),
+        );
+        programs.push(single(vec![
+            chain.clone(),
+            get(content(obj(vec![prop("m", app("chain", vec![num()])), prop("n", app("chain", vec![str_()]))]))),
+        ]));
+        programs.push(single(vec![
+            chain.clone(),
+            get(content(app("chain", vec![num()]))),
+            get_at("b", content(app("chain", vec![str_()]))),
+        ]));
+        programs.push(single(vec![
+            chain,
+            get(content(obj(vec![prop("m", app("chain", vec![num()])), prop("n", app("chain", vec![num()]))]))),
+        ]));
     }
     // instantiations at scope depth >= 2: a function with a rec applied several times
     // inside another function's body, with equal and different arguments
@@ -1715,6 +1802,20 @@ pub fn f9() -> Fragment {
         let x2 = E::Xfer { methods: vec![Method::Get, Method::Put], params: None, domain: None, range: Box::new(E::Content(vec![], None)) };
         programs.push(single(vec![Stmt::Res(rel(uri_lit(&["a"]), vec![ann(E::Paren(Box::new(x2)), a)]))]));
     }
+    // the same annotations on a relation: they are the relation's own and none of them is
+    // handed to its operations
+    for a in ["description: dx", "operationId: items", "description: dx, summary: sx, tags: [t1], operationId: op2"] {
+        let ops = || {
+            vec![
+                xfer(Method::Get, E::Content(vec![], None)),
+                ann(E::Paren(Box::new(xfer(Method::Put, content(num())))), "operationId: own"),
+                xfer(Method::Delete, E::Content(vec![], None)),
+            ]
+        };
+        programs.push(single(vec![let_ann("r", a, rel(uri_lit(&["a"]), ops())), Stmt::Res(var("r"))]));
+        programs.push(single(vec![let_("r", rel(uri_lit(&["a"]), ops())), Stmt::Res(ann(var("r"), a))]));
+        programs.push(single(vec![Stmt::Res(ann(E::Paren(Box::new(rel(uri_lit(&["a"]), ops()))), a))]));
+    }
     // annotations do not leak through constructors
     programs.push(single(vec![get(content(ann(
         E::Paren(Box::new(obj(vec![prop("p", arr(obj(vec![prop("q", num())])))]))),
@@ -1809,6 +1910,19 @@ pub fn f10() -> Fragment {
     programs.push(single(vec![get(op(Op::Range, vec![c(Some("a/b"), Some(200), str_()), c(None, None, num()), c(Some("c/d"), Some(200), num()), c(Some("x/y"), None, num())]))]));
     // the same path in two resources (unspecified) and near-colliding paths / operation ids
     programs.push(single(vec![get_at("a", content(str_())), Stmt::Res(rel(uri_lit(&["a"]), vec![xfer(Method::Put, content(num()))]))]));
+    // ... with a variable in the path
+    {
+        let item = || E::Uri(vec![Seg::Lit("items".into()), Seg::Var(Box::new(prop("id", str_())))], None);
+        programs.push(single(vec![
+            Stmt::Res(rel(item(), vec![xfer(Method::Get, content(str_()))])),
+            Stmt::Res(rel(item(), vec![xfer(Method::Put, content(num()))])),
+        ]));
+        programs.push(single(vec![
+            let_("it", item()),
+            Stmt::Res(rel(var("it"), vec![xfer(Method::Get, content(str_()))])),
+            Stmt::Res(rel(var("it"), vec![xfer(Method::Delete, E::Content(vec![], None))])),
+        ]));
+    }
     let ok = xfer(Method::Get, E::Content(vec![], None));
     programs.push(single(vec![
         Stmt::Res(rel(E::Uri(vec![Seg::Lit("a".into()), Seg::Var(Box::new(prop("b", num())))], None), vec![ok.clone()])),
